@@ -161,7 +161,7 @@ func (f *C15Fake) ApplyBatch(gap []C15Gap) {
 			}
 		}
 		if len(mine) > 0 {
-			f.send(s, c15Resp(f.rev, mine))
+			f.deliver(s, mine)
 		}
 	}
 }
@@ -350,9 +350,19 @@ func (f *C15Fake) applyLocked(del bool, key, val string, lost bool) {
 	}
 	for _, s := range f.streams {
 		if s.open && s.matches(key) {
-			f.send(s, c15Resp(e.Rev, []C15Event{e}))
+			f.deliver(s, []C15Event{e})
 		}
 	}
+}
+
+// deliver keeps a stream in order: while its replay has not been handed out completely, live
+// events queue up behind it.
+func (f *C15Fake) deliver(s *c15Stream, evs []C15Event) {
+	if len(s.pending) > 0 {
+		s.pending = append(s.pending, evs)
+		return
+	}
+	f.send(s, c15Resp(evs[len(evs)-1].Rev, evs))
 }
 
 // C15Gap is a store mutation that lands after the streams ended and before the
